@@ -1411,3 +1411,187 @@ Proof.
   lia.
 Qed.
 End Fuel.
+
+(* ================= Part 7: the meta-objects of the parsed package; the theorem ================= *)
+Lemma iidl_S f sc t : iidl (S f) sc t =
+  let tuple := fix tuple (l : list ity) : option (list string) :=
+          match l with
+          | [] => Some []
+          | m :: r => match iidl f sc m, tuple r with Some a, Some b => Some (a :: b) | _, _ => None end
+          end in
+  match t with
+  | IBasic s => Some (scalar_idl s)
+  | IList e => match iidl f sc e with Some a => Some ("Vec<" ++ a ++ ">") | None => None end
+  | IMap k v => match iidl f sc k, iidl f sc v with Some a, Some b => Some ("Map<" ++ a ++ "," ++ b ++ ">") | _, _ => None end
+  | ITuple ts => match tuple ts with Some l => Some ("Tuple<" ++ join "," l ++ ">") | None => None end
+  | IRef n => match lookup n sc with
+              | Some (ScStruct name _) => Some name
+              | Some ScItf => Some "obj"
+              | None => Some ("not found in scope: " ++ n)
+              end
+  end.
+Proof. reflexivity. Qed.
+
+(* SignatureIDL of a parsed type never recurses through the scope: it always answers *)
+Lemma iidl_of sc t : idl_safe t = true -> forall f, (idl_depth t < f)%nat -> iidl f sc (ity_of t) <> None.
+Proof.
+  induction t as [s|t IHt|k v IHk IHv|ts IH|n fs IH] using ty_ind2; intros Hs f Hf;
+    (destruct f as [|f]; [lia|]).
+  - destruct s; try discriminate; cbn; discriminate.
+  - cbn [ity_of]. rewrite iidl_S. cbn zeta. cbn [idl_safe idl_depth] in *.
+    specialize (IHt Hs f ltac:(lia)). destruct (iidl f sc (ity_of t)); [discriminate|congruence].
+  - cbn [ity_of]. rewrite iidl_S. cbn zeta. cbn [idl_safe idl_depth] in *. apply andb_prop in Hs as [Hk Hv].
+    specialize (IHk Hk f ltac:(lia)). specialize (IHv Hv f ltac:(lia)).
+    destruct (iidl f sc (ity_of k)); [|congruence]. destruct (iidl f sc (ity_of v)); [discriminate|congruence].
+  - assert (Ei : ity_of (TTuple ts) = ITuple (map ity_of ts)) by (destruct ts; [discriminate|reflexivity]).
+    assert (Hs' : forallb idl_safe ts = true) by (destruct ts; [discriminate|exact Hs]).
+    rewrite Ei, iidl_S. cbn zeta. cbn iota. cbn [idl_depth] in Hf. clear Ei Hs.
+    match goal with |- match ?F (map ity_of ts) with _ => _ end <> None =>
+      assert (E : F (map ity_of ts) <> None) end.
+    { induction ts as [|t l IHl]; [discriminate|].
+      inversion IH as [|? ? Ht IH']; subst. cbn [forallb] in Hs'. apply andb_prop in Hs' as [Ha Hb]. cbn [fold_right] in Hf.
+      cbn [map]. specialize (Ht Ha f ltac:(lia)). destruct (iidl f sc (ity_of t)); [|congruence].
+      specialize (IHl IH' ltac:(lia) Hb).
+      match goal with |- match ?X with _ => _ end <> None => destruct X; [discriminate|congruence] end. }
+    match goal with |- match ?X with _ => _ end <> None => destruct X; [discriminate|congruence] end.
+  - cbn [ity_of]. rewrite iidl_S. cbn zeta. cbn iota. destruct (lookup n sc) as [[]|]; discriminate.
+Qed.
+
+Definition norm_m (m : tmethod) : mmethod :=
+  {| mm_uid := tm_uid m; mm_name := tm_name m; mm_params := print (TTuple (tm_params m));
+     mm_ret := print (tm_ret m); mm_pnames := Some (map fst (snd (method_members m))) |}.
+(* what comes back: the same objects, the methods with the parameter names that were written *)
+Definition norm_o (o : tobject) : mobject :=
+  {| mo_name := to_name o; mo_methods := map norm_m (to_methods o);
+     mo_signals := map g_of (to_signals o); mo_props := map g_of (to_props o) |}.
+
+Lemma ity_depth_in i l : In i l -> (ity_depth i <= fold_right (fun t a => Nat.max (ity_depth t) a) 0 l)%nat.
+Proof. induction l as [|u l IH]; [intros []|]. cbn. intros [->|H]; [lia|]. specialize (IH H). lia. Qed.
+
+Section Metas.
+Variable E : env.
+Variable P : list tobject.
+Variable St : tset.
+Hypothesis HP : package_ok E P.
+Hypothesis HE : env_safe E.
+Hypothesis HS : set_ok E (map to_name P) St.
+Let sc := scope_of (decl_vals E P St) [].
+
+Lemma params_resolve i0 (l : list (string * ty)) :
+  Forall (type_ok E) (map snd l) -> Forall (covers St) (map snd l) ->
+  tuple_sig (sig_fuel sc (ITuple (i0 ++ map snd (iparams l)))) sc (iparams l) = Some (print (TTuple (map snd l))).
+Proof.
+  intros Hok Hc. apply tuple_sig_of. apply Forall_forall. intros p Hp.
+  rewrite Forall_forall in Hok, Hc. pose proof (in_map snd _ _ Hp) as Hin.
+  destruct (Hok _ Hin) as (_ & Hs & He). specialize (Hc _ Hin). repeat split; [assumption| |].
+  - now apply (scope_has_covered E P St).
+  - apply (depth_below_fuel E P St HP HE HS); [assumption|assumption|].
+    rewrite <- (ity_depth_of _ Hs). cbn [ity_depth]. apply le_S. apply ity_depth_in.
+    apply in_or_app. right. unfold iparams. rewrite map_map. cbn [snd]. apply in_map_iff. exists p. auto.
+Qed.
+
+Lemma meta_methods_ok ms : Forall (method_ok E) ms -> Forall (method_covered St) ms ->
+  meta_methods sc (map mentry ms) = Some (map norm_m ms).
+Proof.
+  induction ms as [|m ms IH]; intros Hok Hc; [reflexivity|].
+  inversion Hok as [|? ? Hm Hok']; subst. inversion Hc as [|? ? [Hcp Hcr] Hc']; subst.
+  cbn [map mentry meta_methods]. destruct Hm as [Hts Hrt Hname Hu Hu0 Hpn].
+  set (l := snd (method_members m)).
+  set (f := sig_fuel sc (ITuple (ret_ity (tm_ret m) :: map snd (iparams l)))).
+  assert (Hl : map snd l = tm_params m) by apply method_members_snd.
+  assert (Hp : tuple_sig f sc (iparams l) = Some (print (TTuple (tm_params m)))).
+  { rewrite <- Hl. apply (params_resolve [ret_ity (tm_ret m)]); now rewrite Hl. }
+  assert (Hf1 : (1 <= f)%nat) by (subst f; rewrite sig_fuel_eq; lia).
+  assert (Hr : isig f sc (ret_ity (tm_ret m)) = Some (print (tm_ret m)) /\ iidl f sc (ret_ity (tm_ret m)) <> None).
+  { unfold ret_ity. destruct (String.eqb_spec (print (tm_ret m)) "v") as [Ev|Ev].
+    - apply print_v in Ev. rewrite Ev. destruct f; [lia|]. split; [reflexivity|discriminate].
+    - destruct Hrt as [Hv|(_ & Hs & He)]; [rewrite Hv in Ev; now elim Ev|].
+      assert (Hd : (idl_depth (tm_ret m) <= ity_depth (ITuple (ity_of (tm_ret m) :: map snd (iparams l))))%nat).
+      { rewrite <- (ity_depth_of _ Hs). cbn [ity_depth fold_right]. lia. }
+      assert (Hfe : f = sig_fuel sc (ITuple (ity_of (tm_ret m) :: map snd (iparams l)))).
+      { subst f. unfold ret_ity. destruct (String.eqb_spec (print (tm_ret m)) "v"); [contradiction|reflexivity]. }
+      split.
+      + apply isig_of; [assumption|now apply (scope_has_covered E P St)|].
+        rewrite Hfe. now apply (depth_below_fuel E P St HP HE HS).
+      + apply iidl_of; [assumption|]. rewrite Hfe, sig_fuel_eq. lia. }
+  destruct Hr as [Hr1 Hr2]. fold l. fold f. rewrite Hr1, Hp.
+  destruct (iidl f sc (ret_ity (tm_ret m))); [|congruence].
+  rewrite (IH Hok' Hc'). unfold norm_m at 2. fold l. unfold iparams. rewrite map_map. reflexivity.
+Qed.
+
+Lemma meta_signals_ok xs : Forall (signal_ok E) xs -> Forall (signal_covered St) xs ->
+  meta_signals sc (map gentry xs) = Some (map g_of xs).
+Proof.
+  induction xs as [|x xs IH]; intros Hok Hc; [reflexivity|].
+  inversion Hok as [|? ? Hx Hok']; subst. inversion Hc as [|? ? Hcx Hc']; subst.
+  cbn [map gentry meta_signals]. destruct Hx as [Hts Hname Hu Hu0].
+  set (l := tuple_fields 0 (tg_params x)).
+  assert (Hl : map snd l = tg_params x) by apply tuple_fields_snd.
+  pose proof (params_resolve [] l ltac:(now rewrite Hl) ltac:(now rewrite Hl)) as Hp. cbn [app] in Hp.
+  rewrite Hp, (IH Hok' Hc'), Hl. reflexivity.
+Qed.
+
+Lemma metas_of_app l1 l2 : metas_of sc (l1 ++ l2)%list =
+  match metas_of sc l1, metas_of sc l2 with Some a, Some b => Some (a ++ b)%list | _, _ => None end.
+Proof.
+  induction l1 as [|d l1 IH]; cbn [app metas_of]; [now destruct (metas_of sc l2)|].
+  rewrite IH. destruct (meta_of_itf sc d) as [[m|]|]; [| |reflexivity];
+    destruct (metas_of sc l1); destruct (metas_of sc l2); reflexivity.
+Qed.
+
+Lemma metas_itfs (Q : list tobject) : Forall (object_ok E) Q -> Forall (object_covered St) Q ->
+  metas_of sc (map itf_val Q) = Some (map norm_o Q).
+Proof.
+  induction Q as [|o Q IH]; intros Hok Hc; [reflexivity|].
+  inversion Hok as [|? ? Ho Hok']; subst. inversion Hc as [|? ? (C1 & C2 & C3) Hc']; subst.
+  cbn [map metas_of]. unfold itf_val at 1. cbn [meta_of_itf].
+  destruct Ho as [_ _ Hms Hss Hps _ _ _].
+  rewrite (meta_methods_ok _ Hms C1), (meta_signals_ok _ Hss C2), (meta_signals_ok _ Hps C3), (IH Hok' Hc').
+  reflexivity.
+Qed.
+
+Lemma metas_structs (l : list ival) : Forall (fun v => exists n ms, v = VStruct n ms) l -> metas_of sc l = Some [].
+Proof. induction 1 as [|v l (n & ms & ->) HF IH]; [reflexivity|]. cbn [metas_of meta_of_itf]. now rewrite IH. Qed.
+
+Lemma metas_ok : Forall (object_covered St) P -> metas_of sc (decl_vals E P St) = Some (map norm_o P).
+Proof.
+  intro Hc. unfold decl_vals. rewrite metas_of_app, (metas_itfs P (pk_objs E P HP) Hc), metas_structs.
+  - now rewrite app_nil_r.
+  - apply Forall_forall. intros v Hv. apply in_flat_map in Hv as (e & _ & Hv).
+    destruct (snd (snd e)); [|destruct Hv]. destruct (lookup (fst e) E); [|destruct Hv]. destruct Hv as [<-|[]].
+    unfold struct_val. eauto.
+Qed.
+End Metas.
+
+(* ---------- the theorem ---------- *)
+Theorem idl_file_roundtrip : forall E pkg P, package_ok E P -> env_safe E -> is_pkg_name pkg = true ->
+  exists text, gen_idl pkg (map o_of P) = Some text /\ parse_idl text = IOk (map norm_o P).
+Proof.
+  intros E pkg P HP HE Hpkg.
+  destruct (gen_idl_ok E pkg P HP) as (St & Hgen & HS & Hcov & _).
+  exists (package_text pkg P St). split; [exact Hgen|].
+  unfold parse_idl. rewrite (parse_package_ok E pkg P St HP HE Hpkg HS).
+  change (is_empty (skip_ws nl)) with true. cbv iota.
+  now rewrite (metas_ok E P St HP HE HS Hcov).
+Qed.
+
+Lemma same_methods ms : all2 same_method (map m_of ms) (map norm_m ms) = true.
+Proof.
+  induction ms as [|m ms IH]; [reflexivity|]. cbn [map all2]. rewrite IH.
+  unfold same_method, m_of, norm_m. cbn. now rewrite N.eqb_refl, !String.eqb_refl.
+Qed.
+Lemma same_signals xs : all2 same_signal (map g_of xs) (map g_of xs) = true.
+Proof.
+  induction xs as [|x xs IH]; [reflexivity|]. cbn [map all2]. rewrite IH.
+  unfold same_signal. now rewrite N.eqb_refl, !String.eqb_refl.
+Qed.
+
+(* in the decidable form used for the refutation witnesses *)
+Corollary idl_roundtrip_ok : forall E pkg P, package_ok E P -> env_safe E -> is_pkg_name pkg = true ->
+  roundtrip_ok pkg (map o_of P) = true.
+Proof.
+  intros E pkg P HP HE Hpkg. destruct (idl_file_roundtrip E pkg P HP HE Hpkg) as (text & Hg & Hp).
+  unfold roundtrip_ok. rewrite Hg, Hp. clear. induction P as [|o P IH]; [reflexivity|].
+  cbn [map all2]. rewrite IH. unfold same_object, o_of, norm_o. cbn [mo_name mo_methods mo_signals mo_props].
+  now rewrite String.eqb_refl, same_methods, !same_signals.
+Qed.
